@@ -17,7 +17,7 @@ VARIABLES pidx,   \* which program this behaviour runs
           olog    \* per client: results of the operations completed so far
 ovars == <<vars, pidx, olog>>
 
-NoCfg == [cap |-> Unb, strat |-> "restart", stream |-> FALSE, tmo |-> 0, failto |-> FALSE, owning |-> FALSE,
+NoCfg == [cap |-> Unb, strat |-> "restart", stream |-> FALSE, tmo |-> -1, failto |-> FALSE, owning |-> FALSE,
           sscr |-> <<>>, pscr |-> <<>>, fscr |-> <<>>, ty |-> "0", items0 |-> 0, ended0 |-> FALSE, iscr |-> <<>>]
 OpOf(r) == [op |-> r.op, h |-> r.h, nh |-> r.nh, a |-> r.a, scr |-> r.scr, d |-> r.d, to |-> r.to,
             ty |-> r.ty, nh2 |-> r.nh2, h2 |-> r.h2,
